@@ -378,11 +378,101 @@ pub fn c02_run(run: &Run) {
             },
         );
     }
+    coef_boundary_driver(run, "c02.first-line-coefficient-boundary");
     let seed = run.seed;
     run.grid(
         Spec { name: "c02.textbook", n: nk * nk, classes: &[], required: &[] },
         |i| Ok(Tally::new(c02_case(&ks[(i / nk) as usize], &ks[(i % nk) as usize], seed)?, true, 0)),
         |i| json!({"op": "c02.textbook", "a": jn(&ks[(i / nk) as usize]), "b": jn(&ks[(i % nk) as usize]), "seed": seed}),
+    );
+}
+
+// ---- first-line coefficient with a prescribed stored (Montgomery) word ---------------------------------------------
+/// The Jacobian Miller loop of pairing() halves 3 x_T^2 x_P (both components); the prepared loop never halves.
+/// Members: G1 points whose x makes one component of the FIRST tangent coefficient 3 x_Q^2 x_P a value whose stored
+/// (Montgomery) word ends in a run of one bits crossing 1, 2 or 3 limb boundaries, or has a zero low limb above bit 0 -
+/// the carry classes of a limb-wise halving / addition. x_P = m R^-1 / (3 c), c = Re or Im of x_Q^2; m is scanned
+/// upwards (bits above the pattern) until x_P carries a curve point. Oracle: all three entry points give the bytes
+/// of the textbook pairing of these affine coordinates.
+pub const COEF_PATTERNS: u64 = 4;
+pub fn coef_boundary_point(qd: &N, comp: u64, pat: u64) -> Option<(N, N, N)> {
+    let q = refmodel::q();
+    let qq = ref_mul::<G2>(qd);
+    let (xq, _) = qq.xy()?;
+    let s = xq.sq();
+    let c = if comp == 0 { s.a.clone() } else { s.b.clone() };
+    if c.is_zero() {
+        return None;
+    }
+    let (w, low): (u32, N) = match pat {
+        0 => (65, (N::one() << 65u32) - N::one()),
+        1 => (129, (N::one() << 129u32) - N::one()),
+        2 => (193, (N::one() << 193u32) - N::one()),
+        _ => (65, N::one()),
+    };
+    let den = refmodel::invm(&mulm(&n(3), &c, q), q)?;
+    let ri = mccore::alpha::rinv(q);
+    let hi = refmodel::nhex("123456789abcdef00fedcba987654321") << 128u32;
+    for k in 1u64..4000 {
+        let m = ((&hi >> (w + 24)) << (w + 24)) | (N::from(k) << w) | &low;
+        if &m >= q {
+            continue;
+        }
+        let x = mulm(&mulm(&m, &ri, q), &den, q);
+        let rhs = addm(&mulm(&mulm(&x, &x, q), &x, q), &n(5), q);
+        if let Some(y) = refmodel::sqrt_mod(&rhs, q) {
+            return Some((x, y, m));
+        }
+    }
+    None
+}
+pub fn coef_boundary_case(qd: &N, comp: u64, pat: u64) -> Result<u32, Bad> {
+    let (x, y, m) = match coef_boundary_point(qd, comp, pat) {
+        Some(t) => t,
+        None => return Ok(0),
+    };
+    let qv = match build::<G2>(qd, &Rep::Aff) {
+        Some(v) => v,
+        None => return Ok(0),
+    };
+    let p = match lib("AffineG1::new", || <G1 as GroupApi>::affine_new(&refmodel::Fq(x.clone()), &refmodel::Fq(y.clone())))? {
+        Ok(p) => p,
+        Err(_) => return Ok(0), // a decoder / constructor defect is C09's business
+    };
+    let want = refmodel::pairing(&refmodel::Pt::Aff(refmodel::Fq(x.clone()), refmodel::Fq(y.clone())), &ref_mul::<G2>(qd)).to_bytes();
+    let mut k = 0;
+    for ep in Ep::ALL {
+        let gb = ep.call(p, qv.v)?.to_slice();
+        ensure!(
+            gb[..] == want[..],
+            "wrong-bytes",
+            "{}(P, Q) with Q={} and P=({:x}, {:x}) chosen so that component {} of 3 x_Q^2 x_P is stored as {:x}: library {} , textbook R-ate pairing {}",
+            ep.name(),
+            qv.json(),
+            x,
+            y,
+            comp,
+            m,
+            short(&gb),
+            short(&want)
+        );
+        k += 1;
+    }
+    Ok(k)
+}
+pub fn coef_boundary_driver(run: &Run, name: &'static str) {
+    let qds: Vec<N> = match run.tier {
+        Tier::Quick => vec![n(1)],
+        Tier::Thorough => vec![n(1), n(2), r() - n(1), consts().lambda.clone()],
+    };
+    let per = 2 * COEF_PATTERNS;
+    run.grid(
+        Spec { name, n: qds.len() as u64 * per, classes: &[], required: &[] },
+        |i| {
+            let k = coef_boundary_case(&qds[(i / per) as usize], (i % per) / COEF_PATTERNS, i % COEF_PATTERNS)?;
+            Ok(Tally::new(k, k > 0, 0))
+        },
+        |i| json!({"op": "pair.coef-boundary", "b": jn(&qds[(i / per) as usize]), "comp": (i % per) / COEF_PATTERNS, "pat": i % COEF_PATTERNS}),
     );
 }
 pub fn c02_meta(_run: &Run) -> Meta {
@@ -553,6 +643,7 @@ pub fn c03_run(run: &Run) {
     );
     run.note("prepared_machine", json!({"Q_alphabet": nq, "P_alphabet": ps.len(), "depth": depth, "call_sequences": nq * nseq}));
     c03_call_order(run);
+    coef_boundary_driver(run, "c03.first-line-coefficient-boundary");
 }
 /// hidden state across calls: every ordered pair of calls (entry point, P, Q) executed back to back on ONE thread,
 /// with nothing else running; the second call must return the model value whatever the first one was
@@ -840,6 +931,7 @@ pub fn replay(c: &Value) -> Result<(), Bad> {
         "c01.identity" => c01_identity(&v1("P"), &v2("Q"), ep()).map(|_| ()),
         "c02.special" => c02_special_case(c["side"].as_u64().unwrap_or(0), &gn(c, "a"), &gn(c, "b"), &c["scale"]).map(|_| ()),
         "c02.vectors" => c02_vectors().map(|_| ()),
+        "pair.coef-boundary" => coef_boundary_case(&gn(c, "b"), c["comp"].as_u64().unwrap_or(0), c["pat"].as_u64().unwrap_or(0)).map(|_| ()),
         "c02.textbook" => c02_case(&gn(c, "a"), &gn(c, "b"), c["seed"].as_u64().unwrap_or(1)).map(|_| ()),
         "c03.pair" => c03_pair(&v1("P"), &v2("Q")).map(|_| ()),
         "c03.callorder" => {
